@@ -230,6 +230,9 @@ impl<T: RealNumber> FirstOrderOptimizer<T> for LBFGS<T> {
             state.iteration += 1;
         }
 
+        #[cfg(smartcore_verif)]
+        crate::verif_hooks::record_optimizer_run(state.iteration, self.max_iter);
+
         OptimizerResult {
             x: state.x,
             f_x: state.x_f,
